@@ -37,6 +37,35 @@ func init() {
 		Only: func(job Job, a string) bool {
 			return inSet(a, "A", "F", "BC", "DE", "HL", "alt", "IX", "IY", "SP", "PC", "I", "IFF1", "IFF2", "IM", "HALT", "intr", "mem", "portcount", "ports", "nopanic")
 		},
+		Post: func(c *CheckCtx) {
+			// translator validation of the encoder itself (not of the property)
+			per, every := 1, 9
+			if c.Tier == "thorough" {
+				per, every = 11, 1
+			}
+			var encs []Enc
+			for i, e := range allEncodings() {
+				if (i+int(c.Seed))%every == 0 {
+					encs = append(encs, e)
+				}
+			}
+			tv := c.R.TranslatorValidation(encs, per, c.Seed)
+			c.Extra["translator_validation"] = map[string]interface{}{"vectors": tv.Vectors, "agreed": tv.Agreed, "vectors_on_unfinished_paths": tv.NoPath,
+				"what": "harness VTV (one Step + reference model, every output observed) run natively and through the encoder on the same random/corner vectors"}
+			for _, m := range tv.Mismatches {
+				c.Undecided = append(c.Undecided, fmt.Sprintf("obligation=translator-validation reason=%q", "encoder disagrees with native execution: "+m))
+			}
+			// oracle validation: the zex cases on the reference model, natively
+			mode := "quick"
+			if c.Tier == "thorough" {
+				mode = "thorough"
+			}
+			out, err := c.L.GoTestNative("z80", "^TestVOracleZex$", []string{"VERIF_ORACLE=" + mode}, "60m")
+			c.Extra["oracle_validation"] = map[string]interface{}{"mode": mode, "passed": err == nil, "what": "zexdoc/zexall cases executed on the reference model natively must give the canonical CRCs (quick: every 8th case, thorough: all 134)"}
+			if err != nil {
+				c.Undecided = append(c.Undecided, fmt.Sprintf("obligation=oracle-validation reason=%q", "reference model fails the exerciser natively: "+lastLines(out, 4)))
+			}
+		},
 		Bounds:  map[string]interface{}{"steps": 1, "opcode_bytes": "concrete, all 7 tables x 256 (1786 leaf encodings)", "symbolic": "all of States, HALT, 64 KiB memory, displacement/immediates, port inputs", "loop_unwinding": "none needed: Step is loop-free (unwinding assertion active)"},
 		Assume:  []string{"Interrupt == nil", "Memory and IO are an ideal RAM / passive port space (harness bus)", "reference model vSpecStep is the Z80 definition (DESIGN.md §4)"},
 		Stubs:   stepStubs,
